@@ -447,6 +447,13 @@ func (w *World) registeredFuncs() []*ssa.Function {
 					out = append(out, g)
 				case *ssa.MakeClosure:
 					out = append(out, g.Fn.(*ssa.Function))
+				default:
+					// a registration table walked by a loop
+					for _, row := range tableRows(c.Call.Args[idx]) {
+						if f := fnValueOf(row[0]); f != nil {
+							out = append(out, f)
+						}
+					}
 				}
 			}
 		}
@@ -592,7 +599,11 @@ func handedOutInLoop(write ssa.Instruction, base ssa.Value) ssa.CallInstruction 
 
 // storageRoot: the allocation a slice value views (slice literal array, make), through reslices and phis of one root.
 func storageRoot(v ssa.Value) ssa.Value {
-	for depth := 0; depth < 8; depth++ {
+	return storageRootD(v, 0)
+}
+
+func storageRootD(v ssa.Value, depth int) ssa.Value {
+	for ; depth < 10; depth++ {
 		switch x := v.(type) {
 		case *ssa.Slice:
 			v = x.X
@@ -600,6 +611,30 @@ func storageRoot(v ssa.Value) ssa.Value {
 			return x
 		case *ssa.MakeInterface:
 			v = x.X
+		case *ssa.Call:
+			// append(s, …) may return s's own storage
+			if bi, ok := x.Call.Value.(*ssa.Builtin); ok && bi.Name() == "append" {
+				v = x.Call.Args[0]
+				continue
+			}
+			return nil
+		case *ssa.Phi:
+			// one allocation seen through a loop-carried variable
+			var root ssa.Value
+			for _, op := range x.Edges {
+				if op == ssa.Value(x) {
+					continue
+				}
+				r := storageRootD(op, depth+1)
+				if r == nil {
+					continue
+				}
+				if root != nil && r != root {
+					return nil
+				}
+				root = r
+			}
+			return root
 		default:
 			return nil
 		}
